@@ -135,10 +135,14 @@ def WFClosed {α} (t : List (Ev α)) : Prop := wfLive [] t = some []
 
 /-! ## One lifetime run locally -/
 
-/-- outputs of a LocalOp over the items of one lifetime: per-item chunks, then the completion chunk -/
-def LocalOp.runL {α β} (L : LocalOp α β) : L.σ → List α → List (List (LOut β)) × List (LOut β)
-  | s, [] => ([], L.fin s)
-  | s, x :: xs => let r := L.next s x; let r2 := L.runL r.1 xs; (r.2 :: r2.1, r2.2)
+/-- run a step machine over the items of one lifetime: per-item chunks, then the completion chunk -/
+def runRaw {σ α β : Type} (next : σ → α → σ × List β) (fin : σ → List β) : σ → List α → List (List β) × List β
+  | s, [] => ([], fin s)
+  | s, x :: xs => ((next s x).2 :: (runRaw next fin (next s x).1 xs).1, (runRaw next fin (next s x).1 xs).2)
+
+/-- outputs of a LocalOp over the items of one lifetime -/
+def LocalOp.runL {α β} (L : LocalOp α β) (s : L.σ) (xs : List α) : List (List (LOut β)) × List (LOut β) :=
+  runRaw L.next L.fin s xs
 
 def LocalOp.outL {α β} (L : LocalOp α β) (xs : List α) : List (LOut β) :=
   let r := L.runL L.init xs; r.1.flatten ++ r.2
